@@ -121,7 +121,13 @@ def best_signature_match(sig: Sequence[Dtype], candidates: Sequence[Sequence[Dty
             best_index = i + 1
             best_distance = this_distance
 
-    assert sum(int(best_distance == sig_distance(sig, match)) for match in candidates) == 1
+    if sum(int(best_distance == sig_distance(sig, match)) for match in candidates) != 1:
+        # several overloads are equally close, e.g. for arguments of type `NullType`
+        from pydiverse.transform._internal.errors import DataTypeError
+
+        raise DataTypeError(
+            f"ambiguous call: the argument types {', '.join(str(t) for t in sig)} match several signatures equally well"
+        )
     return best_index
 
 
